@@ -123,7 +123,8 @@ pub fn triage_crash(prop: &str, tier: Tier, seed: u64, exe: &Path) -> i32 {
             }
         }
     }
-    if !CRASH_OWNERS.contains(&prop) {
+    let niche_crash = prop == "C20" && case.get("kind").and_then(|k| k.as_str()) == Some("niche");
+    if !CRASH_OWNERS.contains(&prop) && !niche_crash {
         eprintln!(
             "INCONCLUSIVE property={prop}: the engine crashed (signal) on a recorded case; crashes are reported by the checks of C01/C03/C05/C06/C07/C18, not by this one"
         );
